@@ -253,6 +253,23 @@ def helper_addr(E, R, kind, testnet):
     return "ok"
 
 
+def helper_decoder(E, R, hrp, m):
+    """helper.bech32_decode_address on a fully symbolic data part: whatever it returns as a program is what the
+    BIP173/350 reference decodes (same acceptance, same bytes) -- for witness version 0, which is what the helper serves"""
+    data = E.chars("d", m, CHARSET, mode="bv")
+    s = hrp + "1" + data
+    got = E.run(R.helper.bech32_decode_address, s)
+    ref = ref_decode(E, hrp, list(s))
+    if isinstance(got, Raised) or got is None:
+        if ref is not None and _b(ref[0] == 0):
+            E.fail("helper: a valid version-0 address is decoded")
+        return "rej"
+    E.check(ref is not None, "helper: a string invalid per BIP173/350 (checksum constant, padding, length) yields no program")
+    if ref is not None:
+        E.check_eq(list(got), list(ref[1]), "helper: returned program equals the reference")
+    return "acc"
+
+
 # ----------------------------------------------------------------------------- (b) decoder differential
 UPPER = "ABCDEFGHIJKLMNOPQRSTUVWXYZ"
 LOWER = "abcdefghijklmnopqrstuvwxyz"
@@ -681,6 +698,9 @@ def cases(tier):
     for hrp in ("bc", "tb"):
         for m in (range(36, 58) if q else range(36, 72)):
             cs.append(Case("fixed[%s,%d]" % (hrp, m), "decoder_fixed", dict(hrp=hrp, m=m), weight=m, max_paths=200000))
+    for hrp in ("bc", "tb"):
+        for m in ((39, 59) if q else (14, 39, 40, 59, 60)):
+            cs.append(Case("helper_decoder[%s,%d]" % (hrp, m), "helper_decoder", dict(hrp=hrp, m=m), weight=m, max_paths=200000))
     for prefix in ("bc1", "BC1", "Bc1", "tb1"):
         cs.append(Case("case[%s]" % prefix, "case_rule", dict(prefix=prefix, m=7 if q else 9), weight=30,
                        need=("mixed case is rejected",), max_paths=200000))
